@@ -46,10 +46,23 @@ def strat_inputs(draw):
     if r < 4:
         case = draw(gen.case_strategy())
         case = dict(case, parser_ops=[], lazy=draw(st.booleans()))
+        import re as _re
+
+        names = [t["name"] for t in case["table"]["columns"]]
+        cols = [i for i, c in enumerate(case["spec"]["columns"])
+                if (c["name"] in names if not c.get("regex") else any(_re.match(c["name"], str(n)) for n in names))]
+        rx = [i for i in cols if case["spec"]["columns"][i].get("regex")]
+        if case["spec"].get("kind", "dataframe") == "dataframe" and cols and draw(st.integers(0, 5)) == 0:
+            # unrepaired pairs through a standalone Column, regex columns first (their failures run per matched column)
+            case = dict(case, entry="column", entry_col=draw(st.sampled_from(rx or cols)))
     elif r < 8:
         case = draw(gen.parser_case())
         names = [t["name"] for t in case["table"]["columns"]]
-        cols = [i for i, c in enumerate(case["spec"]["columns"]) if not c.get("regex") and c["name"] in names]
+        import re as _re
+
+        # (a standalone Column may also be a regex column: it then validates every column its pattern selects)
+        cols = [i for i, c in enumerate(case["spec"]["columns"])
+                if (c["name"] in names if not c.get("regex") else any(_re.match(c["name"], str(n)) for n in names))]
         if case["spec"].get("kind", "dataframe") == "dataframe" and cols and draw(st.integers(0, 5)) == 0:
             # a standalone Column component validating the frame (prefer a column a parsing option works on)
             hot = [i for i in cols if case["spec"]["columns"][i]["name"] in case.get("touched", [])]
